@@ -1,4 +1,5 @@
 import Uft.Lemmas.Script
+import Uft.Props.C07
 /- C18 — Scripts observe the same calls as replay.
 
    Model: Uft/Model/Script.lean (`scriptRun` = command_script + run_script_for_rstack over
@@ -22,6 +23,69 @@ theorem c18_callbacks_eq_replay (cfg : Cfg) (hf : cfg.funcs = []) (ha : cfg.args
   have h := runWith_map (scriptTask cfg) (replayTask cfg) Shown.toCb
     (scriptTask_fst_eq_replay cfg) (scriptTask_snd_eq_replay cfg hf ha) s (g0 cfg)
   simp only [scriptRun, replayShown, h.1, h.2, and_self]
+
+/-! ### against the independent model of replay (C07)
+
+`c18_callbacks_eq_replay` above compares two transcriptions of cmds/script.c and of
+cmds/replay.c --no-merge onto one automaton of this file; what could differ in C — replay's
+fstack_skip look-ahead and leaf folding — is not in it.  The C07 model (Uft/Model/Fstack.lean)
+has that algorithm (`stepB`, `checkSkip`, the pending ENTRY) and the look-ahead of
+get_task_ustack with uint64 time differences, and Props/C07 proves that replay shows what the
+script loop accepts.  The two theorems below tie this file's script model to it. -/
+section AgainstC07
+open Uft.Fstack Uft.Script.Bridge
+open Uft.Mcount (Calls evCalls)
+
+/-- one task's record file as the merged stream of task `i`, after the reader's look-ahead -/
+def streamOf (cfg : Cfg) (thr i : Nat) (rs : List Uft.Mcount.Rec) : List (Nat × Rec) :=
+  (lookahead (toRCfg cfg thr) rs).map fun r => (i, conv r)
+
+/-- C18 (a'), refinement: on the record file of every call forest, for every -F / -N table, -D
+    and -t, the entry / exit callbacks of this model's script loop — time, kind, function,
+    display depth — are exactly the records the script loop of the C07 model (`cmdOut … .script`)
+    passes on.  Two independently written models of cmds/script.c + utils/fstack.c (array of
+    frames indexed by stack_count here, list of entered calls and a verdict enumeration there)
+    agree. -/
+theorem c18_script_refines_c07 (cfg : Cfg) (thr i : Nat) (hf : cfg.funcs = []) (hd : cfg.dispSet0 = true)
+    (xs : Calls) (ho : Calls.ordered xs) :
+    cbRecs (scriptRun cfg (streamOf cfg thr i (evCalls 0 xs))).2 = cmdOut (toRCfg cfg thr) .script (evCalls 0 xs) := by
+  have hla := lookahead_forest (toRCfg cfg thr) ⟨rfl, rfl⟩ xs ho
+  have hs : streamOf cfg thr i (evCalls 0 xs) =
+      ((evCalls 0 (pruneCalls (toRCfg cfg thr) false (toRCfg cfg thr).threshold xs)).map conv).map fun r => (i, r) := by
+    simp [streamOf, hla, List.map_map, Function.comp_def]
+  show cbRecs (Cb.begin :: (runWith (scriptTask cfg) (g0 cfg) (streamOf cfg thr i (evCalls 0 xs))).2 ++ [Cb.end_]) =
+    runSteps (stepC (toRCfg cfg thr)) (FS.init (toRCfg cfg thr)) (lookahead (toRCfg cfg thr) (evCalls 0 xs))
+  rw [hs, runWith_single, hla]
+  have := script_refines_c07 cfg thr i hf hd (pruneCalls (toRCfg cfg thr) false (toRCfg cfg thr).threshold xs)
+  simp only [cbRecs, List.flatMap_cons, List.flatMap_append, cbRec, List.nil_append, List.flatMap_nil,
+    List.append_nil] at this ⊢
+  exact this
+
+/-- C18 (a''), the headline against replay's own algorithm: for every option set over -F / -N /
+    -D / -t and every call forest, the script's entry / exit callbacks are — in order, with time,
+    kind, function and display depth — exactly the lines the C07 model of `uftrace replay`
+    prints, with its fstack_skip look-ahead and leaf folding (a folded `f();` counts as its
+    ENTRY and EXIT line) as well as with --no-merge.  Through `c07_commands_agree_traceoff`. -/
+theorem c18_callbacks_eq_replay_c07 (cfg : Cfg) (thr i : Nat) (noMerge : Bool) (hf : cfg.funcs = [])
+    (hd : cfg.dispSet0 = true) (xs : Calls) (ho : Calls.ordered xs) :
+    cbRecs (scriptRun cfg (streamOf cfg thr i (evCalls 0 xs))).2 =
+      cmdOut { toRCfg cfg thr with noMerge := noMerge } .replay (evCalls 0 xs) := by
+  have h1 := c18_script_refines_c07 cfg thr i hf hd xs ho
+  have h2 := Uft.C07.c07_commands_agree_traceoff { toRCfg cfg thr with noMerge := noMerge } rfl ⟨rfl, rfl⟩ xs ho .script .replay
+  rw [h1, ← h2]
+  rfl
+
+/-- non-vacuity: `-F f1 -D 2 -t 5` on a forest with a short leaf and a nested call -/
+example :
+    let cfg : Cfg := { filt := fun a => if a = 1 then some true else none, modeIn := true, depth := 2 }
+    let xs : Calls := .cons (.node 0 10 90 (.cons (.node 1 20 60 (.cons (.node 2 30 33 .nil) (.cons (.node 3 40 50 .nil) .nil))) .nil)) .nil
+    cfg.funcs = [] ∧ cfg.dispSet0 = true ∧ Calls.ordered xs ∧
+    cbRecs (scriptRun cfg (streamOf cfg 5 7 (evCalls 0 xs))).2 =
+      [{ time := 20, type := 0, depth := 0, addr := 1 }, { time := 40, type := 0, depth := 1, addr := 3 },
+       { time := 50, type := 1, depth := 1, addr := 3 }, { time := 60, type := 1, depth := 0, addr := 1 }] := by
+  refine ⟨rfl, rfl, by simp [Calls.ordered, Call.ordered], by decide⟩
+
+end AgainstC07
 
 /-- non-vacuity: the default configuration has no function list and the repaired test -/
 example : ({} : Cfg).funcs = [] ∧ ({} : Cfg).argsFixed = true := ⟨rfl, rfl⟩
